@@ -113,7 +113,7 @@ def main():
         if a.no_proof:
             pb = {"ok": True, "log": "", "theorems": C.parse_props_file(pid), "assumptions": {}, "wall": 0}
         else:
-            pb = C.build_props(pid)
+            pb = C.build_props_cone(pid)
         drv_ok, drv_log = C.build_driver()
         h_ok, h_log = C.build_harness()
         model_bin = None
@@ -246,6 +246,9 @@ def main():
             "samples": samples[:12],
             "exhaustive": P.exhaustive(tier),
             "coq_wall_s": round(pb.get("wall", 0), 1),
+            "proof_mode": pb.get("mode"),
+            "generated_definitions_in_dependency_cone": (pb.get("cone") or {}).get("deps"),
+            "generated_definitions_differing_from_baseline": (pb.get("cone") or {}).get("changed", []),
         },
         "assumptions": P.assumptions(),
         "wall_s": round(time.time() - t0, 2),
@@ -298,6 +301,12 @@ def setup():
         if rc != 0:
             print("setup: Coq build failed")
             return 1
+        for fn in sorted(os.listdir(os.path.join(C.COQ, "Props"))):
+            if fn.endswith(".v"):
+                pid = fn[:-2]
+                pb = C.build_props(pid)
+                if pb["ok"] and not C.gen_status()["changed"]:
+                    C.record_proved(pid, pb)
         ok, log = C.build_driver()
         if not ok:
             print(log[-3000:])
